@@ -260,3 +260,55 @@ def expand(f, node, aliases=None):
                 return copy.deepcopy(al[n.id])
             return n
     return Sub().visit(copy.deepcopy(node))
+
+
+def cond_values(stmts, kind='return', target=None):
+    """What a short block yields under which (positive) test: [(test node or None, value node)], for
+        return A if c else B          if c: return A / else: return B          if c: return A; return B
+    and the same shapes for assignments to ``target`` (kind='assign').  Tests are made positive with pos_if; the complementary
+    branch carries ('not', test).  Returns None when the block has another shape."""
+    out = []
+
+    def value_of(s):
+        if kind == 'return' and isinstance(s, ast.Return):
+            return s.value
+        if kind == 'assign' and isinstance(s, ast.Assign) and len(s.targets) == 1 and ast.unparse(s.targets[0]) == target:
+            return s.value
+        return None
+
+    def add(test, v):
+        if isinstance(v, ast.IfExp):
+            t, a, b = pos_if(v)
+            out.append((_and(test, t), a))
+            out.append((_and(test, ('not', t)), b))
+        else:
+            out.append((test, v))
+
+    def _and(outer, inner):
+        return inner if outer is None else ('and', outer, inner)
+    stmts = [s for s in stmts if not (isinstance(s, ast.Expr) and isinstance(s.value, ast.Constant))]
+    i = 0
+    pending = None           # ('not', test) carried past an `if c: return A` without else
+    while i < len(stmts):
+        s = stmts[i]
+        v = value_of(s)
+        if v is not None:
+            add(pending, v)
+            if kind == 'return':
+                return out
+        elif isinstance(s, ast.If):
+            t, body, orelse = pos_if(s)
+            vb = [value_of(x) for x in body if value_of(x) is not None]
+            ve = [value_of(x) for x in orelse if value_of(x) is not None]
+            if vb:
+                add(_and(pending, t), vb[-1])
+            if ve:
+                add(_and(pending, ('not', t)), ve[-1])
+            if vb and not ve and kind == 'return':
+                pending = _and(pending, ('not', t))
+            elif not vb and ve and kind == 'return':
+                pending = _and(pending, t)
+            elif vb and ve and kind == 'return':
+                return out
+        i += 1
+    return out or None
